@@ -3043,7 +3043,9 @@ class LocalGitClient(GitClient):
                     old_sha1 = old_refs.get(refname, ZERO_SHA)
                     if new_sha1 != ZERO_SHA:
                         current = target.refs.get_peeled(refname)
-                        if current is not None and current != old_sha1:
+                        if new_sha1 not in target.object_store:
+                            ref_status[refname] = f"missing object {new_sha1!r}"
+                        elif current is not None and current != old_sha1:
                             ref_status[refname] = (
                                 f"unable to set {refname!r} to {new_sha1!r}"
                             )
@@ -3063,7 +3065,11 @@ class LocalGitClient(GitClient):
             for refname, new_sha1 in new_refs.items():
                 old_sha1 = old_refs.get(refname, ZERO_SHA)
                 if new_sha1 != ZERO_SHA:
-                    if not target.refs.set_if_equals(refname, old_sha1, new_sha1):
+                    if new_sha1 not in target.object_store:
+                        msg = f"missing object {new_sha1!r}"
+                        _progress(msg.encode())
+                        ref_status[refname] = msg
+                    elif not target.refs.set_if_equals(refname, old_sha1, new_sha1):
                         msg = f"unable to set {refname!r} to {new_sha1!r}"
                         _progress(msg.encode())
                         ref_status[refname] = msg
